@@ -47,6 +47,15 @@ def listing_session(rng, dirpath, n_entries, style):
         reqs += [{"op": "READ_DIR_ENTRY_V2"}] * (n_entries + 2)
     elif style == "bulk":
         reqs += [{"op": "READ_DIR"}, {"op": "READ_DIR"}, {"op": "READ_DIR_ENTRY"}]
+    elif style == "reopen":
+        # re-open the same directory in the middle of a listing: the cursor starts over
+        k = rng.randrange(1, max(2, n_entries))
+        reqs += [{"op": rng.choice(LIST_OPS[:2])} for _ in range(k)]
+        reqs += [{"op": "OPEN_DIR", "path": dirpath}]
+        reqs += [{"op": "READ_DIR_ENTRY_V2"}] * (n_entries + 1)
+        reqs += [{"op": "OPEN_DIR", "path": dirpath}, {"op": "READ_DIR"}, {"op": "OPEN_DIR", "path": dirpath}, {"op": "READ_DIR"},
+                 {"op": "OPEN_DIR", "path": "/t/target_file"}, {"op": "OPEN_DIR", "path": "/t/target_file"}, {"op": "OPEN_DIR", "path": dirpath},
+                 {"op": "READ_DIR_ENTRY"}]
     else:   # mixed interleaving of the three commands
         k = 0
         while k < n_entries + 3:
@@ -75,13 +84,13 @@ def run(tier, seed, replay=None):
             return rep.finish()
         worlds = []
         t0 = 1300000000 + rng.randrange(10 ** 7)
-        shapes = ["empty", "one", "kinds", "names", 41, 300 if not full else 1500]
+        shapes = ["empty", "one", "kinds", "names", 41, 150 if not full else 1500]
         for shape in shapes:
             nodes = shape_world(rng, shape, t0)
             n = len([x for x in nodes if len(x["p"]) == 2 and x["p"][0] == "dir"])
             conns = []
-            for i, style in enumerate(["entries", "v2", "bulk", "mixed", "mixed"]):
-                if isinstance(shape, int) and shape > 100 and style in ("mixed",):
+            for i, style in enumerate(["entries", "v2", "bulk", "mixed", "mixed", "reopen", "reopen"]):
+                if isinstance(shape, int) and shape > 100 and (style == "mixed" or (style == "reopen" and i == 6) or (style == "v2" and not full)):
                     continue
                 conns.append({"id": 1 + i, "reqs": listing_session(rng, "/dir", n, style)})
             # open-dir on everything, stat and dir-size for every node of the tree
@@ -103,7 +112,7 @@ def run(tier, seed, replay=None):
             dirs = [x["p"] for x in nodes if x["kind"] == "dir"] + [[], ["a", "lnkdir"]]
             conns = []
             for j, dpth in enumerate(rng.sample(dirs, min(4, len(dirs)))):
-                conns.append({"id": j + 1, "reqs": listing_session(rng, srv.wire(dpth, rng), 6, rng.choice(["entries", "v2", "bulk", "mixed"]))})
+                conns.append({"id": j + 1, "reqs": listing_session(rng, srv.wire(dpth, rng), 6, rng.choice(["entries", "v2", "bulk", "mixed", "reopen"]))})
             worlds.append({"name": "nested%d" % i, "aw": False, "nodes": nodes, "conns": conns, "schedule": rng.choice(["seq", "rr"])})
         srv.run_and_validate(ctx, worlds, rep)
         rep.cov["rule"] = ("directory shapes {empty, one entry, every kind incl. links to file/dir/nothing, 255-byte and odd names, "
